@@ -83,9 +83,19 @@ func init() {
 	regRow[uintptr]("uintptr")
 	regRow[float32]("float32")
 	regRow[float64]("float64")
+	// a named type against its underlying type, in both roles, and against itself
+	reg[kit.NInt16, int16]("NInt16", "int16")
+	reg[int16, kit.NInt16]("int16", "NInt16")
+	reg[kit.NInt16, kit.NInt16]("NInt16", "NInt16")
+	reg[kit.NUint8, uint8]("NUint8", "uint8")
+	reg[uint8, kit.NUint8]("uint8", "NUint8")
+	reg[kit.NFloat32, float32]("NFloat32", "float32")
+	reg[float32, kit.NFloat32]("float32", "NFloat32")
+	reg[kit.NFloat32, kit.NFloat32]("NFloat32", "NFloat32")
+	reg[kit.NUint8, kit.NFloat32]("NUint8", "NFloat32")
 }
 
-var names = kit.BuiltinNames()
+var names = append(kit.BuiltinNames(), kit.SomeNamed...)
 
 func isName(n string) bool {
 	for _, x := range names {
